@@ -24,7 +24,7 @@ EXPLANATION = ('Signature soundness: z3 decides over all call shapes that Accept
 OUTSIDE = 'stacks deeper than the bound; decorated functions with more parameters than the bound; decorators that transform arguments'
 ASSUMPTIONS = ['decorator bodies call func(*args, **kwargs) exactly once']
 
-OWN = ('none', 'kwo-default', 'kwo-required', 'pok')
+OWN = ('none', 'kwo-default', 'kwo-required', 'pok', 'passes-positional')
 OWN_NAMES = ('oa', 'ob', 'oc')
 
 
@@ -34,6 +34,8 @@ class Marker(Exception):
 
 def _deco_source(idx, own):
     nm = OWN_NAMES[idx]
+    if own == 'passes-positional':      # the layer hands one positional argument of its own to the function
+        return 'func, *args, **kwargs', "    return ('deco%d', None, func(('ctx', %d), *args, **kwargs))" % (idx, idx)
     if own == 'none':
         deflist = 'func, *args, **kwargs'
     elif own == 'kwo-default':
@@ -48,6 +50,8 @@ def _deco_source(idx, own):
 
 def _own_shape(idx, own):
     nm = OWN_NAMES[idx]
+    if own == 'passes-positional':
+        return (Shape(va='args', vk='kwargs'), Site(1, (), True, True))
     if own == 'none':
         return Shape(va='args', vk='kwargs')
     if own == 'kwo-default':
@@ -81,7 +85,12 @@ def _build(spec, layers, placement, raises=False):
     def decorate(f):
         obj = f
         for (kind, own), fn in zip(layers, deco_fns):
-            maker = wrappers.decorator(fn) if kind == 'decorator' else wrappers.wrapper_decorator(fn)
+            if kind == 'decorator':
+                maker = wrappers.decorator(fn)          # (discovers the fixed positional from the source)
+            elif own == 'passes-positional':
+                maker = wrappers.wrapper_decorator(1)(fn)
+            else:
+                maker = wrappers.wrapper_decorator(fn)
             obj = maker(obj)
         return obj
 
@@ -123,19 +132,26 @@ def h_signature(ctx, cfg):
                            gshape.va, gshape.kwo, gshape.vk)
         owns = [_own_shape(i, own) for i, (k, own) in enumerate(layers)]
         chain = list(reversed(owns))       # outermost first
+        shapes_only = [c[0] if isinstance(c, tuple) else c for c in chain]
         ex = ChainExec(chain, gshape, real=b['obj'])
     for route, get in (('sigtools', sigtools.signature), ('inspect', inspect.signature)):
         try:
             with sym.concrete():
                 R = get(b['obj'])
         except Exception as e:
+            with sym.notrace():
+                qn0 = all_names(shapes_only + [gshape])
+            if isinstance(e, ValueError) and any(own == 'passes-positional' for k, own in layers) and ctx.impossible(qn0, ex):
+                # a declared forwarding (wrapper_decorator(1)) that can never be honoured surfaces as ValueError
+                ctx.count('declared-forwarding-impossible')
+                continue
             ctx.require('retrieval-does-not-raise[%s]' % route, False, lambda: dict(exc=repr(e)))
             continue
         info = lambda: dict(reported=str(R), route=route)
         with sym.notrace():
             rs = shape_of(R)
-            qn = all_names(chain + [gshape, rs])
-            bound = tuple(nm for sh in chain + [gshape] for nm in sh.named)
+            qn = all_names(shapes_only + [gshape, rs])
+            bound = tuple(nm for sh in shapes_only + [gshape] for nm in sh.named)
             nc = NonColl(rs.kwable, bound)
         if ctx.impossible(qn, ex):
             ctx.count('never-callable')
@@ -150,7 +166,7 @@ def h_signature(ctx, cfg):
         ws2 = list(wrappers.wrappers(b['obj']))
     ctx.require('wrappers-lists-outermost-first-when-bound', len(ws2) == len(b['decos']) and
                 all(a is c for a, c in zip(ws2, b['decos'])), lambda: dict(got=repr(ws2), placement=placement))
-    if placement == 'method' and not any(own == 'pok' for k, own in layers):
+    if placement == 'method' and not any(own in ('pok', 'passes-positional') for k, own in layers):
         # (with a positional own parameter the decorated function's self is not the first parameter)
         with sym.concrete():
             full = sigtools.signature(b['unbound'])
@@ -174,7 +190,7 @@ def h_call(ctx, cfg):
     raises = sym.flip('raises')
     npos = sum(1 for k in spec.kinds if k < 2)
     n = sym.pick(npos + 3, 'n')
-    own_names = [OWN_NAMES[i] for i, (k, own) in enumerate(layers) if own != 'none']
+    own_names = [OWN_NAMES[i] for i, (k, own) in enumerate(layers) if own not in ('none', 'passes-positional')]
     kws = tuple(nm for nm in list(spec.names) + own_names + [FOREIGN_NAME] if sym.flip('kw'))
     avals = [sym.sym_val('av') for _ in range(n)]
     kvals = dict((nm, sym.sym_val('kv')) for nm in kws)
@@ -308,8 +324,12 @@ def plan(tier):
     if tier == 'quick':
         return [
             dict(name='signature-K1-D2', fn='h_signature', depth=9, budget_s=300, cfg=dict(K=1, D=2),
-                 bounds='decorated functions with <=1 named parameter x stacks of 1..2 layers (2 kinds x 4 own-parameter forms each) x function/method/staticmethod',
+                 bounds='decorated functions with <=1 named parameter x stacks of 1..2 layers (2 kinds x 5 own-parameter forms each, incl. a layer passing a positional of its own) x function/method/staticmethod',
                  min_nontrivial=300, must_reach=['sound', 'wrappers-lists-outermost-first', 'binding-removes-exactly-the-first-parameter']),
+            dict(name='signature-K2-D1-own-positional', fn='h_signature', depth=8, budget_s=240,
+                 cfg=dict(K=2, D=1, own_forms=['passes-positional', 'none']),
+                 bounds='decorated functions with <=2 named parameters x 1 layer that passes a positional argument of its own (wrapper_decorator(1) declared / decorator discovered) or none x function/method/staticmethod',
+                 min_nontrivial=300, must_reach=['sound']),
             dict(name='call-K1-D1', fn='h_call', depth=9, budget_s=300, cfg=dict(K=1, D=1),
                  bounds='decorated functions with <=1 named parameter x 1 layer x 3 placements x returning/raising body x calls n<=len+2, every keyword subset incl. own and foreign names; symbolic values',
                  min_nontrivial=300, must_reach=['same-result-as-composition', 'exception-propagates-unchanged']),
